@@ -42,7 +42,7 @@ RULE = ("one evaluation = one (history, base, target, bundle format) installatio
         "one differential merge, or one tampered payload judged; distinct = distinct (kind, revision texts carried, format / "
         "flavour / tamper position class); non-trivial = the payload carries >= 2 revisions, a merge revision, or a tree with a "
         "symlink / executable / binary file")
-CASES = {"quick": 48, "thorough": 400}
+CASES = {"quick": 32, "thorough": 400}
 BUDGET_S = {"quick": 40, "thorough": 700}
 MIN_EVALS = {"quick": 400, "thorough": 5000}
 FLOORS = {"bundle_installed:4": 60, "bundle_installed:0.9": 60, "testament_compared": 300, "written_set_checked": 120,
@@ -361,7 +361,7 @@ def pick_pairs(rng, case, n):
     return pairs
 
 
-def bundle_roundtrip(case, rng, base, target, bfmt):
+def bundle_roundtrip(case, rng, base, target, bfmt, tag=None):
     from breezy.bzr.bundle.apply_bundle import install_bundle
     from breezy.bzr.bundle.serializer import read_bundle, write_bundle
 
@@ -369,6 +369,8 @@ def bundle_roundtrip(case, rng, base, target, bfmt):
     expected = case.anc(target) - case.anc(base)
     detail = {"base": base.decode(), "target": target.decode(), "bundle_format": bfmt, "repo_format": case.fmt,
               "carried": sorted(r.decode() for r in expected)}
+    if tag is not None:
+        detail["replacement_delta"] = tag
     key = "bundle-%s" % bfmt
     buf = BytesIO()
     ok, written = attempt(ctx, key + ":write", lambda: write_bundle(open_repo(case.repo_path), target, base, buf, format=bfmt), detail)
@@ -420,8 +422,11 @@ def bundle_roundtrip(case, rng, base, target, bfmt):
                     lambda: install_bundle(open_repo(twin), read_bundle(BytesIO(data))), detail)
     if ok:
         ctx.count("bundle_installed:" + bfmt)
+        if tag is not None:
+            ctx.count("replacement_delta_installed" + ("" if bfmt == "4" else ":patch-format"))
+            ctx.hist("bundle:%s:replacement:%s" % (bfmt, tag))
         case.compare_installed(twin, expected, key + (":cross-format" if tfmt != case.fmt else ""), detail, strict3=(tfmt == case.fmt))
-    sig = ("bundle", bfmt, variant, sorted((r, case.source_texts(r, False)["strict"]) for r in expected))
+    sig = ("bundle", bfmt, variant, tag, sorted((r, case.source_texts(r, False)["strict"]) for r in expected))
     ctx.note(sig, nontrivial=interesting(revs, expected),
              sample={"kind": "bundle", "format": bfmt, "repo_format": case.fmt, "base": base.decode(), "target": target.decode(),
                      "carried": len(expected), "bytes": len(data), "variant": variant})
@@ -526,18 +531,39 @@ def directives(case, rng):
 
     tz = rng.choice(TZS)
     made = []
+    carried = case.anc(tt) - case.anc(ts)
     flavours = [("bundle+patch", True, True), ("bundle", False, True), ("patch", True, False), ("plain", False, False)]
     quick = ctx.tier == "quick"
     if quick:
         flavours = [flavours[0]] + rng.sample(flavours[1:], 1)
-    for fl, inc_patch, inc_bundle in flavours:
+    flavours = [f + (None,) for f in flavours]
+    # an explicit base for the preview patch (`send -r BASE..REV`): a revision of REV's ancestry, mostly one the submit
+    # branch does not have (later than the common ancestor), sometimes one it has (the common ancestor or earlier)
+    later = sorted(carried - {tt})
+    older = sorted(case.anc(tt) - carried)
+    explicit = [("bundle+patch@base", True, True), ("patch@base", True, False)]
+    for fl, inc_patch, inc_bundle in (rng.sample(explicit, 1) if quick else explicit):
+        pool = later if later and (not older or rng.random() < 0.7) else older
+        if pool:
+            flavours.append((fl, inc_patch, inc_bundle, rng.choice(pool)))
+    for fl, inc_patch, inc_bundle, xbase in flavours:
         msg = rng.choice(MESSAGES)
         detail = {"flavour": "v2:" + fl, "revision": tt.decode(), "submit_tip": ts.decode(), "message": msg, "timezone": tz, "repo_format": case.fmt}
+        kw = {}
+        if xbase is not None:
+            kw["base_revision_id"] = xbase
+            detail["explicit_base"] = xbase.decode()
+            detail["base_in_submit_branch"] = xbase in case.anc(ts)
         ok, md = attempt(ctx, "directive2:from_objects", lambda: md_mod.MergeDirective2.from_objects(
             repository=open_repo(case.repo_path), revision_id=tt, time=when, timezone=tz, target_branch=submit.base,
             include_patch=inc_patch, include_bundle=inc_bundle, local_target_branch=Branch.open(h.trees[sname]),
-            public_branch=None if inc_bundle and rng.random() < 0.5 else src_url, message=msg), detail)
+            public_branch=None if inc_bundle and rng.random() < 0.5 else src_url, message=msg, **kw), detail)
         if ok:
+            if xbase is not None:
+                ctx.count("directive_explicit_base")
+                ctx.hist("directive:explicit-base:" + ("in-submit-branch" if xbase in case.anc(ts) else "later-than-common-ancestor"))
+                ctx.check(md.base_revision_id == xbase, "directive:explicit-base-not-recorded",
+                          "from_objects(base_revision_id=%r) made a directive with base_revision_id %r" % (xbase, md.base_revision_id), detail)
             made.append(("v2:" + fl, md, FIELDS2, detail))
     v1 = [("bundle", "bundle"), ("diff", "diff"), ("plain", None)]
     for fl, ptype in (rng.sample(v1, 1) if quick else v1):
@@ -553,7 +579,6 @@ def directives(case, rng):
         ok, md = attempt(ctx, "directive1:from_objects", make1, detail)
         if ok:
             made.append(("v1:" + fl, md, FIELDS1, detail))
-    carried = case.anc(tt) - case.anc(ts)
     parsed = {}
     for fl, md, fields, detail in made:
         ok, lines = attempt(ctx, "directive:to_lines", lambda: md.to_lines(), detail)
@@ -626,7 +651,12 @@ def directives(case, rng):
         with open(f, "wb") as fh:
             fh.writelines(lines)
         ok, ra = attempt(ctx, "merge:from-directive", lambda: run_merge(f, a), detail)
-        ok2, rb = attempt(ctx, "merge:from-branch", lambda: run_merge(h.trees[tname], b, ["-r", "revid:" + tt.decode()]), detail)
+        # a directive whose base the target branch does not have is merged as a cherrypick BASE..REV (Merger.from_mergeable)
+        cherry = detail.get("explicit_base") is not None and not detail["base_in_submit_branch"]
+        rev_arg = "revid:%s..revid:%s" % (detail["explicit_base"], tt.decode()) if cherry else "revid:" + tt.decode()
+        if cherry:
+            ctx.count("merge_differential_cherrypick")
+        ok2, rb = attempt(ctx, "merge:from-branch", lambda: run_merge(h.trees[tname], b, ["-r", rev_arg]), detail)
         if ok and ok2:
             ctx.count("merge_differential")
             ctx.hist("merge:%s:%s/%s" % (fl, ra[0], rb[0]))
@@ -724,7 +754,7 @@ def tamper_directives(case, rng, parsed, carried, ts, tt, sname):
 
     ctx, h = case.ctx, case.h
     # preview patch
-    for fl in ("v2:bundle+patch", "v2:patch"):
+    for fl in ("v2:bundle+patch", "v2:patch", "v2:bundle+patch@base", "v2:patch@base"):
         if fl not in parsed:
             continue
         back, lines, detail = parsed[fl]
@@ -780,8 +810,8 @@ def tamper_directives(case, rng, parsed, carried, ts, tt, sname):
             continue
         back, lines, detail = parsed[fl]
         raw = base64.b64decode(back.bundle)
+        cands = [i for i, c in enumerate(back.bundle) if c in B64]
         for _ in range(2):
-            cands = [i for i in range(len(back.bundle)) if back.bundle[i:i + 1] in [bytes([c]) for c in B64]]
             pos = rng.choice(cands)
             tb = flip(back.bundle, pos, B64, rng)
             try:
@@ -870,6 +900,7 @@ def tamper_bundles(case, rng, bundles):
 
 def case(ctx):
     from vf.checks import _c35_hist as H
+    from vf.checks import _c40_replace as R
     from vf.observe import snap_tree, strip_ids
 
     from vf import gen
@@ -879,11 +910,27 @@ def case(ctx):
     thorough = ctx.tier != "quick"
     fmt = rng.choice(FORMATS)
     nrevs = rng.randint(3, 8) if not thorough else rng.randint(3, 16)
+    names = H.GitNames(ctx.tier)
+    rstate = R.State()
+    plain_extras = H.extra_edits
+
+    def extras_with_replacements(rng_, wt, names_, log, *a, **kw):
+        # the shared builder calls its module-level extra_edits once per ordinary revision, just before the commit
+        plain_extras(rng_, wt, names_, log, *a, **kw)
+        R.maybe(rng_, wt, names_, log, rstate)
+
     try:
-        h = H.build(ctx, rng, fmt, nrevs=nrevs, nbranches=3 if not thorough else 4, names=H.GitNames(ctx.tier), weights=H.WEIGHTS)
+        H.extra_edits = extras_with_replacements
+        try:
+            h = H.build(ctx, rng, fmt, nrevs=nrevs, nbranches=3 if not thorough else 4, names=names, weights=H.WEIGHTS)
+        finally:
+            H.extra_edits = plain_extras
+        R.ensure(h, rng, names, rstate)
         repo = H.gather(h)
     except Exception as e:
         ctx.discard("history-construction:%s" % type(e).__name__)
+    for mode, _e, _rid in R.committed(h):
+        ctx.hist("replacement-delta:" + mode)
     ctx.hist("format:" + fmt)
     ctx.info["format"] = fmt
     ctx.info["log"] = h.log[-60:]
@@ -901,10 +948,18 @@ def case(ctx):
     os.chdir(ctx.tmp("cwd"))
     try:
         bundles = []
-        for base, target in pick_pairs(rng, c, 2 if not thorough else 5):
+        pairs = [(None, b, t) for b, t in pick_pairs(rng, c, 2 if not thorough else 5)]
+        # bundles whose delta replaces the occupant of a path (see _c40_replace): every patch format, v4 for half of them
+        directed = [d for d in R.directed_pairs(h) if (d[1], d[2]) not in [(b, t) for _, b, t in pairs]]
+        rng.shuffle(directed)
+        directed.sort(key=lambda d: d[0] not in ("replace", "free+fill"))  # the two classes only this workload reaches first
+        pairs += directed[:2 if not thorough else 5]
+        for tag, base, target in pairs:
             for bfmt in c.bundle_formats:
-                data = bundle_roundtrip(c, rng, base, target, bfmt)
-                if data is not None and rng.random() < 0.5:
+                if tag is not None and bfmt == "4" and rng.random() < 0.5:
+                    continue
+                data = bundle_roundtrip(c, rng, base, target, bfmt, tag)
+                if data is not None and tag is None and rng.random() < 0.5:
                     bundles.append((bfmt, base, target, data))
         tamper_bundles(c, rng, bundles[:2] if not thorough else bundles[:5])
         directives(c, rng)
